@@ -4,6 +4,9 @@ import json, os
 HERE = os.path.dirname(os.path.abspath(__file__))
 
 CHECKS = {
+ "C15": ("seeded character streams delivered three ways (console_process; console_eval from a second fibre under the real scheduler; console_putchar from simulated interrupts/threads with ring overflow) against a reference line editor, tokeniser and dispatcher; ASan exact-size console, bounds monitor",
+         "Seeded exploration of registration orders and counts (0-35 commands, beyond the table capacity) and of character streams (clean and messy lines, quotes, backspace, Ctrl-C, lines padded to 76-82 characters, yielding/sleeping/failing commands with input arriving meanwhile) through all three delivery paths; what each command saw (argc, argv copies, pointer containment in the line buffer) and the unknown-command output are compared with a reference editor/tokeniser applied to exactly the characters that entered the ring; eval injections must complete and execute each line once.",
+         "Lines beginning with white space or a quote, empty quotes, unterminated quotes and text glued to quotes are judged for safety, containment and dispatch only (the statement does not define their arguments); the character arriving when 79 are held is always followed by a junk line so both readings of its fate agree."),
  "C06": ("deterministic simulation of the fibre scheduler under a discrete-event main loop with interrupt-context calls injected between any two atomic operations or library data accesses (nested to depth 2) and from free-running sender contexts; obligation, exactly-once, ordering and queue-health oracles after a fault-free run to quiescence",
          "Seeded search over placements of up to 24 interrupt-context calls (fibre_run_atomic, fibre_eventq_claim/send, including back-to-back bursts that fill the 8-deep wake-up queue) inside fibre_scheduler_next, fibre_run, fibre_kill, the drain loop, fibre bodies and other handlers, and over thread schedules of 1-3 senders; every accepted wake-up becomes an obligation that a later dispatch must discharge unless a kill withdraws or overlaps it, dispatches never exceed reasons, accepted events arrive exactly once, intact and in real-time order, the system must quiesce within 64 passes and the queues must then dispatch a known run order exactly.",
          "Preemption points are atomic operations, library accesses to its own data, accesses to event storage and explicit points in bodies and the main loop; sequentially consistent interleavings; the POSIX main loop is replaced by a discrete-event loop of the same shape."),
